@@ -113,7 +113,13 @@ fn sign_master(ks: &str) -> Sm9SignMasterKey {
     let ks = u(ks);
     Sm9SignMasterKey { ks, ppubs: TwistPoint::g_mul(&ks) }
 }
+/// `aff:<ke>`: the master public key is held in affine form (Z = 1), as after decoding it from octets;
+/// otherwise it is the Jacobian output of `g_mul`
 fn enc_master(ke: &str) -> Sm9EncMasterKey {
+    if let Some(k) = ke.strip_prefix("aff:") {
+        let ke = u(k);
+        return Sm9EncMasterKey { ke, ppube: Point::g_mul(&ke).to_affine_point() };
+    }
     let ke = u(ke);
     Sm9EncMasterKey { ke, ppube: Point::g_mul(&ke) }
 }
@@ -402,6 +408,8 @@ pub fn dispatch(t: &[&str]) -> Option<Out> {
                 "trunc" => { let l: usize = t[6].parse().unwrap(); ct.truncate(l); }
                 "c1" => { let mut n = unhex(t[6]); n.extend_from_slice(&ct[65..]); ct = n; }
                 "id" => { did.push(0x21); }
+                "xor" => { let (ps, mk) = t[6].split_once(':').unwrap(); let mk = u8::from_str_radix(mk, 16).unwrap();
+                           for q in ps.split(',') { let i: usize = q.parse().unwrap(); ct[i] ^= mk; } }
                 _ => panic!("bad tamper"),
             }
             match key.decrypt(&did, &ct) {
@@ -414,7 +422,14 @@ pub fn dispatch(t: &[&str]) -> Option<Out> {
         // s9_keygen sign|enc <cands>
         "s9_keygen" => {
             push_cands(t[2]);
-            let out = if t[1] == "sign" {
+            // sign / enc: the associated functions; signfn / encfn: the free functions generate_*_master_key (same code, second call site)
+            let out = if t[1] == "signfn" {
+                let k = gm_sm9::key::generate_sign_master_key();
+                format!("{} {}", h(&k.ks), g2aff(&k.ppubs))
+            } else if t[1] == "encfn" {
+                let k = gm_sm9::key::generate_enc_master_key();
+                format!("{} {}", h(&k.ke), g1aff(&k.ppube))
+            } else if t[1] == "sign" {
                 let k = Sm9SignMasterKey::master_key_generate();
                 format!("{} {}", h(&k.ks), g2aff(&k.ppubs))
             } else {
